@@ -261,6 +261,23 @@ func c15Invariant(r *ev.Run) int64 {
 		check("parsed", rootSig(t), t)
 	})
 	r.Completed("(e) registry unchanged after parsing every frame of the switch corpus")
+	// ... and every frame one field value away from it (small indices, zero and maximal lengths, ...)
+	sel := baseSelector{max: 2048}
+	for _, b := range c04Bases() {
+		sel.offer(b)
+	}
+	corpus.Switch(false, func() bool { return false }, func(string, bool) {}, sel.offer)
+	_, complete := sel.vary(r.Seed, r.Expired, func(t *wire.N, what string) {
+		f, _ := wire.Encode(t)
+		if len(f) > 65535 {
+			return
+		}
+		safeParse(f)
+		check("parsed", rootSig(t)+" (one field varied)", t)
+	})
+	if complete {
+		r.Completed("(e) registry unchanged after parsing every single-field variation of the switch corpus bases")
+	}
 	corpus.Controller(false, r.Expired, func(string, bool) {}, func(t *wire.N) {
 		if modelSize(t) > 65535 {
 			return
